@@ -65,6 +65,8 @@ def free_vars(e, leaves):
         for lid in e[2]:
             out |= {n for n, _ in leaves[lid]["axes"]}
         return out
+    if t == "scat":            # ("scat", i, k, table, source): dest[i] = (+)_{k: table[k] = i} source(k)
+        return (free_vars(e[4], leaves) - {e[2]}) | {e[1]}
     raise ValueError(t)
 
 
@@ -193,6 +195,18 @@ class Oracle:
                 for k, v in ga.items():
                     g[k] = g.get(k, 0) + v * rest
             return tot, g
+        if t == "scat":
+            tot, g = Fraction(0), {}
+            for kk in range(self.sz[e[2]]):
+                if e[3][kk] == env[e[1]]:
+                    env2 = dict(env)
+                    env2[e[2]] = kk
+                    env2.pop(e[1], None)
+                    a, ga = self.ev(e[4], env2)
+                    tot += a
+                    for k_, v_ in ga.items():
+                        g[k_] = g.get(k_, 0) + v_
+            return tot, g
         if t == "cat":
             v = e[1]
             off = 0
@@ -250,6 +264,8 @@ def build_funsor(case):
         leaves[lid] = Tensor(to_impl_data(l["data"], sr) + (l["logoff"] if "logoff" in l else 0.0),
                              OrderedDict((pn if in_cat.get(lid) == n else vname(n), Bint[s]) for n, s in l["axes"]))
 
+    idx_cache = {}
+
     def ixf(ix, lsize):
         t = ix[0]
         if t == "var":
@@ -260,7 +276,12 @@ def build_funsor(case):
         if t == "const":
             return Number(ix[1], lsize)
         if t == "tab":
-            return Tensor(np.array(ix[2][:sz[ix[1]]]), OrderedDict([(vname(ix[1]), Bint[sz[ix[1]]])]), lsize)
+            # one index tensor per (variable, table): structurally equal substitutions are then the same
+            # hash-consed lazy node, as in the DAG model
+            key = (ix[1], tuple(ix[2][:sz[ix[1]]]), lsize)
+            if key not in idx_cache:
+                idx_cache[key] = Tensor(np.array(ix[2][:sz[ix[1]]]), OrderedDict([(vname(ix[1]), Bint[sz[ix[1]]])]), lsize)
+            return idx_cache[key]
         raise ValueError(t)
 
     lazy_of = {}
@@ -287,6 +308,11 @@ def build_funsor(case):
             return go(e[2]).reduce(sum_op, frozenset(vname(v) for v in e[1]))
         if t == "prod":
             return go(e[2]).reduce(prod_op, frozenset(vname(v) for v in e[1]))
+        if t == "scat":
+            from funsor.terms import Scatter
+            i_, k_, tab_ = e[1], e[2], e[3]
+            idx = Tensor(np.array(tab_[:sz[k_]]), OrderedDict([(vname(k_), Bint[sz[k_]])]), sz[i_])
+            return Scatter(sum_op, ((vname(i_), idx),), go(e[4]), frozenset({Variable(vname(k_), Bint[sz[k_]])}))
         if t == "cat":
             parts = tuple(leaves[l] for l in e[2])
             if pn is None:
@@ -561,6 +587,8 @@ def expr_wire(e, leaves=None):
         for v in reversed(e[1]):
             out = [t, v, out]
         return out
+    if t == "scat":
+        return ["scat", e[1], e[2], list(e[3]), expr_wire(e[4], leaves)]
     if t == "cat":
         return ["cat", e[1], [[lid, dict(leaves[lid]["axes"])[e[1]]] for lid in e[2]]]
     raise ValueError(t)
@@ -811,6 +839,8 @@ def subterms(e):
         yield from subterms(e[2])
     elif e[0] in ("sum", "prod"):
         yield from subterms(e[2])
+    elif e[0] == "scat":
+        yield from subterms(e[4])
 
 
 # Regions (dedicated-stream names) folded into the clean stream: permanently once the corresponding
@@ -881,6 +911,12 @@ def _violated(case):
                     # adjoint reaching the Subs node is an exact Number, eager_scatter_number's "injective
                     # renaming" shortcut returns it unchanged although the variable is not reduced
                     out.add("scatter-number-shortcut")
+        elif t == "scat":
+            body = free_vars(e[4], leaves)
+            tab_ = e[3][:case["sz"][e[2]]]
+            if e[1] in body or e[1] in F or e[2] not in body or e[2] in F or e[1] == e[2] \
+                    or len(set(tab_)) != len(tab_) or any(x >= case["sz"][e[1]] for x in tab_):
+                out.add("scatter-ill-posed")      # outside `Good`; eager Scatter is injective-only
         elif t == "cat":
             if case.get("cat_part_name") is not None:
                 out.add("cat-part-name")
@@ -1199,12 +1235,14 @@ def wire_nodes(w, acc):
         wire_nodes(w[2], acc)
     elif t in ("sum", "prod"):
         wire_nodes(w[2], acc)
+    elif t == "scat":
+        wire_nodes(w[4], acc)
     if key not in acc:
         acc.append(key)
     return acc
 
 
-KIND = {"acc": "Subs", "add": "Binary", "mul": "Binary", "sum": "Reduce", "prod": "Reduce", "cat": "Cat"}
+KIND = {"scat": "Scatter", "acc": "Subs", "add": "Binary", "mul": "Binary", "sum": "Reduce", "prod": "Reduce", "cat": "Cat"}
 
 
 def compare_trace(ctx, case, r, mtrace, F, sz, sr, tol, label):
@@ -1223,6 +1261,8 @@ def compare_trace(ctx, case, r, mtrace, F, sz, sr, tol, label):
             count_occ(w[1]); count_occ(w[2])
         elif w[0] in ("sum", "prod"):
             count_occ(w[2])
+        elif w[0] == "scat":
+            count_occ(w[4])
     count_occ(expr_wire(case["expr"], case["leaves"]))
     shared = [k for k in mine if occ.get(k, 0) > 1]
     ctx.count(f"{label}:dag:shared-nodes:{min(len(shared), 3)}")
@@ -1473,6 +1513,19 @@ def aliasing_cases(rng):
                 out.append(mk(("sum", [t], cat), dict(axes), szr))
                 out.append(mk(("sum", fvs, ("mul", cat, ("acc", 2, []))), dict(axes, **{2: [(t, tot)]}) if False else
                               {**axes, 2: [(t, tot)]}, szr))
+            # forward Scatter of a source along t to a fresh destination variable 3 (then read by w(3))
+            if opt is None:
+                for nd_ in (n, n + 1):
+                    perm = rng.sample(range(nd_), n)
+                    szs_ = {t: n, o: m, 3: nd_}
+                    src1 = x
+                    ax1 = {0: [(t, n), (o, m)], 2: [(3, nd_)]}
+                    out.append(mk(("sum", [3, o], ("mul", ("scat", 3, t, perm, src1), w)), ax1, szs_))
+                    out.append(mk(("sum", [3], ("mul", ("scat", 3, t, perm, src1), w)), ax1, szs_))
+                    ax2 = {0: [(t, n)], 1: [(t, n), (o, m)], 2: [(3, nd_), (o, m)]}
+                    out.append(mk(("sum", [3, o], ("mul", ("scat", 3, t, perm, ("mul", x, y)), w)), ax2, szs_))
+                    out.append(mk(("sum", [3, o], ("mul", ("scat", 3, t, perm, ("mul", x, x)), w)),
+                                  {0: [(t, n), (o, m)], 2: [(3, nd_)]}, szs_))
             r_ = ("acc", 0, [(4, ("var", t))])
             out.append(mk(("sum", [t], ("mul", ("mul", r_, r_), ("acc", 1, []))), {0: [(4, n)], 1: [(t, n)]}, {t: n}))
             out.append(mk(("sum", [t], ("add", r_, r_)), {0: [(4, n)]}, {t: n}))
